@@ -970,9 +970,6 @@ pub fn empty_views_ok<E: Elem + SatisfyTraits<Tr>, Tr: ?Sized + TrSet>() -> bool
         && spare.0 % a == 0
         && tp % a == 0
         && tm % a == 0
-        && shared.0 == mutable.0
-        && shared.0 == tp
-        && tp == tm
         && shared.1 == 0
         && mutable.1 == 0
         && spare.1 == 0
@@ -995,26 +992,29 @@ pub fn views_step<E: Elem + SatisfyTraits<Tr>, Tr: ?Sized + TrSet, M: MemB>(v: &
         c
     };
     ok &= why(base % align == 0, "storage pointer misaligned", cx.diag);
+    // a view that covers no bytes at all need not start at the storage - nothing says where an
+    // empty slice points - but the pointer it exposes must still be aligned for the element type
+    let at = |p: usize, n: usize, want: usize| if n == 0 { p % align == 0 } else { p == want };
     {
         let b = lib(|| v.as_bytes());
         ok &= why(b.len() == len * size, "as_bytes length", cx.diag);
-        ok &= why(b.as_ptr() as usize == base, "as_bytes start", cx.diag);
+        ok &= why(at(b.as_ptr() as usize, b.len(), base), "as_bytes start", cx.diag);
     }
     {
         let b = lib(|| v.as_bytes_mut());
         ok &= why(b.len() == len * size, "as_bytes_mut length", cx.diag);
-        ok &= why(b.as_ptr() as usize == base, "as_bytes_mut start", cx.diag);
+        ok &= why(at(b.as_ptr() as usize, b.len(), base), "as_bytes_mut start", cx.diag);
     }
     if len <= cap {
         let sp = lib(|| v.spare_bytes_mut());
         ok &= why(sp.len() == (cap - len).wrapping_mul(size), "spare_bytes_mut length", cx.diag);
-        ok &= why(sp.as_ptr() as usize == base + len * size, "spare_bytes_mut start", cx.diag);
+        ok &= why(at(sp.as_ptr() as usize, sp.len(), base + len * size), "spare_bytes_mut start", cx.diag);
         let mut tv = lib(|| v.downcast_mut::<E>()).expect("LIB: typed view of the real element type");
         let sc = lib(|| tv.spare_capacity_mut());
         ok &= why(sc.len() == cap - len, "spare_capacity_mut length", cx.diag);
-        ok &= why(sc.as_ptr() as usize == base + len * size, "spare_capacity_mut start", cx.diag);
+        ok &= why(at(sc.as_ptr() as usize, sc.len() * size, base + len * size), "spare_capacity_mut start", cx.diag);
         let sl = lib(|| tv.as_mut_slice());
-        ok &= why(sl.len() == len && sl.as_ptr() as usize == base, "as_mut_slice", cx.diag);
+        ok &= why(sl.len() == len && at(sl.as_ptr() as usize, sl.len() * size, base), "as_mut_slice", cx.diag);
     }
     ok &= why(empty_views_ok::<E, Tr>(), "views of an Empty-backed vector (alignment / extents / shared vs mutable)", cx.diag);
     cx.ev.push(Ev::Bool(ok));
